@@ -571,6 +571,16 @@ func Inject(r *rand.Rand, p *Policy, defect string) bool {
 			c.Op = weirdOps[r.Intn(len(weirdOps))]
 		}
 		nc.Conds = conds
+		if r.Intn(4) == 0 {
+			// a long list: the defect comes after six or more valid conditions ("one condition per argument" is not
+			// a rule of the API)
+			var head []Cond
+			for k := 6 + r.Intn(3); len(head) < k; {
+				head = append(head, Cond{Arg: uint32(r.Intn(6)), Op: Ops[r.Intn(len(Ops))], Val: Operand(r)})
+			}
+			nc.Conds = append(head, conds...)
+			return true
+		}
 		if r.Intn(3) == 0 {
 			// the defect sits in the tail of a list whose valid head is also the list of an earlier entry of the
 			// group (conds[:k] for one syscall, conds for another: both slices start at the same element)
